@@ -56,6 +56,7 @@ func main() {
 		fatal("unknown command", cmd)
 	}
 	if !concMode {
+		runEchoes(true)
 		recheckSeeds()
 	}
 	closeOut()
@@ -77,6 +78,10 @@ func genFor(prop, tier string, seed int64, phase string) {
 	switch prop {
 	case "C01", "C02", "C03", "C05", "C08", "C15", "C04", "C10", "C11":
 		disturbOn = true
+	}
+	switch prop {
+	case "C01", "C02", "C03", "C05", "C15":
+		echoOn = true
 	}
 	switch prop {
 	case "C01":
@@ -111,6 +116,7 @@ func genFor(prop, tier string, seed int64, phase string) {
 		runGenerated(tier, seed)
 	case "C03":
 		runUniform(seed, all10, "uniform")
+		runWhitespaceMix(seed, map[string]int{"quick": 400, "thorough": 6000}[tier], []int64{0, 1, 2, 3, 4, 5, 6, 7, 8, 9})
 		if q {
 			runSweeps(tier, seed, all10, 1)
 			runMutations(tier, seed, newRng(seed, "c03l").perm(10)[:2], true)
@@ -125,6 +131,7 @@ func genFor(prop, tier string, seed int64, phase string) {
 	case "C15":
 		runDefects(tier, seed, all10)
 		runUniform(seed, all10, "uniform")
+		runWhitespaceMix(seed, map[string]int{"quick": 300, "thorough": 4000}[tier], []int64{0, 1, 2, 3, 4, 5, 6, 7, 8, 9})
 		if q {
 			runMutations(tier, seed, all10, false)
 		} else {
